@@ -208,7 +208,8 @@ class IsaGen:
         if self.cascade:
             self.add_cascades()
         self.dedupe()
-        return {"rules": self.rules, "subs": self.subs, "comma_space": self.comma_space, "bool_flags": getattr(self, "bool_flags", [])}
+        return {"rules": self.rules, "subs": self.subs, "comma_space": self.comma_space, "bool_flags": getattr(self, "bool_flags", []),
+                "late_consts": getattr(self, "late_consts", [])}
 
     def add_cascades(self):
         """Families whose encoding size depends on the operand value."""
@@ -217,7 +218,7 @@ class IsaGen:
             # suffixes never equal an operand token: `call q` would otherwise also match a glued rule `callq`
             # (blanks inside a rule's literal run are skipped by the character-level matcher; C07's directed case)
             mnem = rng.choice(["jmp", "bra", "call", "ldi", "b"]) + rng.choice(["", "", "_w", "_q"])
-            style = rng.choice(["typed", "assert", "rel", "posfence", "boolconst"])
+            style = rng.choice(["typed", "assert", "rel", "posfence", "boolconst", "lateconst"])
             base = len(self.rules)
             op = rng.getrandbits(8)
             if style == "typed":
@@ -233,6 +234,19 @@ class IsaGen:
                 self.bool_flags = getattr(self, "bool_flags", []) + [flag]
                 self.rules.append({"pat": [("lit", mnem)],
                                    "prod": ("tern", ("var", 0, [flag]), lit_sized(rng, 24), lit_sized(rng, 8)),
+                                   "size": 24, "name": "c%d" % len(self.rules)})
+            elif style == "lateconst":
+                # two unconditional candidates; the smaller one adds a global constant that the program may define
+                # from a data file *after* its uses (statically known, yet unknown while the first pass visits the
+                # instruction): the smaller candidate must still win
+                zk = "zk%d" % f
+                self.late_consts = getattr(self, "late_consts", []) + [zk]
+                self.rules.append({"pat": [("lit", mnem), ("param", "a", None)],
+                                   "prod": concat([lit_sized(rng, 8, op),
+                                                   ("sshort", ("par", ("bin", "+", ("var", 0, ["a"]), ("var", 0, [zk]))), num(8))]),
+                                   "size": 16, "name": "c%d" % len(self.rules)})
+                self.rules.append({"pat": [("lit", mnem), ("param", "a", None)],
+                                   "prod": concat([lit_sized(rng, 8, (op + 1) & 0xff), ("sshort", ("var", 0, ["a"]), num(16))]),
                                    "size": 24, "name": "c%d" % len(self.rules)})
             elif style == "posfence":
                 # encodings selected by the *position* alone: blocks whose last expression is a constant but whose
@@ -623,7 +637,24 @@ class ProgGen:
                 items.append(node)
             else:
                 items.insert(0, node)
-        prog = {"isa": self.isa, "banks": self.banks, "items": items}
+        extra_files = {}
+        for zk in self.isa.get("late_consts", []):
+            v = rng.randint(0, 127)        # incbin reads the file as a *signed* big-endian number: keep the top bit clear
+            if rng.random() < 0.75:
+                fname = "%s.bin" % zk
+                extra_files[fname] = bytes([v])
+                node = ("const", zk, 0, ("incfile", fname, v))
+            else:
+                node = ("const", zk, 0, num(v))
+            r = rng.random()
+            globals_at = [k for k, it in enumerate(items) if it[0] == "label" and it[2] == 0]
+            if r < 0.3 and globals_at:
+                items.insert(rng.choice(globals_at), node)
+            elif r < 0.8:
+                items.append(node)
+            else:
+                items.insert(0, node)
+        prog = {"isa": self.isa, "banks": self.banks, "items": items, "extra_files": extra_files}
         if self.faults and rng.random() < 0.22:
             self.inject_fault(prog)
         prog["fault"] = self.fault
